@@ -627,6 +627,10 @@ func writeEvidence(p Prop, tier string, seed int64, st *runStats, distinct, fres
 		"known_findings_seen": knownSeen,
 		"notes":               notes,
 	}
+	if e, ok := p.(interface{ Exhaustive() string }); ok {
+		cov["exhaustive"] = true
+		cov["exhaustive_scope"] = e.Exhaustive()
+	}
 	ev := map[string]any{
 		"property_id": p.ID(),
 		"tier":        tier,
